@@ -82,7 +82,7 @@ def work(tier, seed):
 
 LONG_CURVES = [{"n": 2100, "targets": "every-segment"}, {"n": 3000, "targets": "every-segment"}, {"n": 4200, "targets": "every-segment"},
                {"n": 6000, "targets": "every-segment"},
-               {"n": 70001, "targets": "near-powers-of-two", "t": 64}, {"n": 2 ** 22 + 5, "targets": "near-powers-of-two", "t": 1},
+               {"n": 70001, "targets": "near-powers-of-two", "t": 64}, {"n": 2 ** 22 + 5, "targets": "near-powers-of-two", "t": 8}, {"n": 250001, "targets": "near-powers-of-two", "t": 24},
                {"n": 2 ** 21 + 9, "targets": "near-powers-of-two", "t": 2}, {"n": 1500, "targets": "zigzag", "t": 3000}]
 LONG_CURVES_THOROUGH = [{"n": 9000, "targets": "every-segment"}, {"n": 300001, "targets": "near-powers-of-two", "t": 16},
                         {"n": 2 ** 23 + 3, "targets": "near-powers-of-two", "t": 1}]
@@ -123,12 +123,13 @@ def _run_long_curve(item, ctx):
         while k < n:
             near.update(j for j in (k - 2, k - 1, k, k + 1) if 0 <= j < n - 1)
             k *= 2
-        for blk in (1998, 4096, 65536 // 3, (2 ** 22) // 3):
+        for blk in (1998, 4096, 65536 // 3, (2 ** 22) // 3, 1000, 10 ** 4, 10 ** 5, 10 ** 6):  # binary and decimal block sizes
             near.update(j for m in range(1, 4) for j in (m * blk - 1, m * blk) if 0 <= j < n - 1)
         segs = np.array(sorted(near))
         T = spec["t"]
         # keep T targets: the ones nearest to the largest powers of two first
-        pref = [j for p2 in (2 ** 22, 2 ** 21, 2 ** 23, 2 ** 16, 2 ** 20, 2 ** 18, 2 ** 15) for j in (p2 - 1, p2, p2 - 2) if j in near]
+        pref = [j for p2 in (2 ** 22, 2 ** 21, 2 ** 23, 10 ** 5, 10 ** 6, 2 * 10 ** 5, 2 ** 16, 2 ** 20, 10 ** 4, 2 ** 18, 2 ** 15)
+                for j in (p2 - 1, p2, p2 - 2) if j in near]
         rest = [j for j in sorted(near, reverse=True) if j not in pref]
         segs = np.array(sorted((pref + rest)[:T]))
     targets = segs + 0.5
